@@ -188,6 +188,22 @@ def run(ck, facts, tier):
     ck.check(r1, "get_calendar_by_name", ok, "get_calendar_by_name is not Cal::new(get_holidays_by_name(name)?, get_weekmask_by_name(name)?)",
              "rust/calendars/named/mod.rs", detail=det, sample="Cal::new(holidays(name)?, weekmask(name)?)")
 
+    # the name a Python user resolves goes through the exported wrapper: it hands the name on as given (no second list of names, no rewriting)
+    gp = facts.fn("calendars::calendar_py::get_calendar_by_name_py")
+    okp, detp = False, "wrapper not found"
+    if gp:
+        import cel
+        from cel import Sym, vkey
+        try:
+            nm = Sym("param", "name")
+            gotp = cel.strip_early(cel.Ev(facts, hooks={"calendars::named::get_calendar_by_name": lambda ev, vals, e: Sym("lookup", vkey(vals[0]))}).apply_fn(gp["fn"], [nm], 0))
+            okp = vkey(gotp) == vkey(Sym("lookup", vkey(nm)))
+            detp = cel.vfmt(gotp)[:300]
+        except cel.Unsupported as e_:
+            detp = "rule could not be established (%s)" % e_
+    ck.check(r1, "get_calendar_by_name_py", okp, "the exported get_named_calendar is not get_calendar_by_name(name) with the name as given", "rust/calendars/calendar_py.rs",
+             detail=detp, sample="get_calendar_by_name(name)")
+
     # ---------------- tables
     tables, masks = {}, {}
     r2 = ck.rule("R07.2", "for tgt,nyc,fed,ldn,stk,osl,zur: the set of weekday dates in the HOLIDAYS literals the name resolves to equals the set generated "
